@@ -101,6 +101,8 @@ WIDE = [
 
 def blocks(tier):
     out = [("wide", {"tier": tier, "wi": i}) for i in range(len(WIDE))]
+    out += [("scale", {"N": N, "design": g}) for N in SCALE_NS[tier] for g in (0, 1, 2)]
+    out += [("repr", {"D": D, "N": N, "a": a}) for D, N in ((1, 3), (2, 2), (2, 3)) for a in range(0, (2 ** N) ** D, 8)]   # every data vector over two categories
     for si, cfg in enumerate(SETS[tier]):
         for N in cfg["Ns"]:
             if cfg["D"] == 0:
@@ -187,6 +189,184 @@ def check_data(datas, E, N, cfg, acc, only_call=None, only_commons=None):
             acc.count("ccube_evals")
         except Q.M.ModelError:
             acc.violation("ccube:inferred-shape", dict(base_case, commons=list(cs)), "inferred shape %r does not contain the data" % (ishape,))
+
+
+# ----------------------------------------------------------------------------- other legal representations of the same arguments
+REPR_CFG = dict(wl=1, Ks=[0, 2], fl=1, forms=["nan", "pair-huge", "int"], vals=["pow2"], wforms=False)
+REPR_KINDS = ["float32", "read-only", "fortran", "strided", "int-weights", "list-dims", "int32-dims"]
+
+
+def _each_array(arg, fn):
+    if arg is None or isinstance(arg, (int, float)):
+        return arg
+    if isinstance(arg, tuple):
+        return tuple(fn(a) for a in arg)
+    return fn(arg)
+
+
+def represent(kind, f_arg, w_arg, denses, ws):
+    """-> (fact argument, weight argument, array-cube dimension list) or None when the representation does not apply."""
+    dims = list(denses)
+    if kind == "float32":
+        if ws[0] == "array" and "D" in ws[1]:
+            return None   # decimal weights are not the same numbers in single precision
+        conv = lambda a: a.astype(numpy.float32) if a.dtype.kind == "f" else a  # noqa
+        return _each_array(f_arg, conv), _each_array(w_arg, conv), dims
+    if kind == "read-only":
+        def ro(a):
+            a = a.copy()
+            a.flags.writeable = False
+            return a
+        return _each_array(f_arg, ro), _each_array(w_arg, ro), [ro(d) for d in dims]
+    if kind == "fortran":
+        if f_arg is None or numpy.asarray(f_arg[0] if isinstance(f_arg, tuple) else f_arg).ndim < 2:
+            return None
+        return _each_array(f_arg, numpy.asfortranarray), w_arg, [numpy.asfortranarray(d) for d in dims]
+    if kind == "strided":
+        def st(a):
+            big = numpy.zeros((a.shape[0] * 2,) + a.shape[1:], dtype=a.dtype)
+            big[::2] = a
+            return big[::2]
+        return _each_array(f_arg, st), _each_array(w_arg, st), [st(d) for d in dims]
+    if kind == "int-weights":
+        if ws != ("scalar", 2.0) and not (ws[0] == "array" and set(ws[1]) <= {"1"}):
+            return None
+        if ws[0] == "scalar":
+            return f_arg, 2, dims
+        return f_arg, _each_array(w_arg, lambda a: a.astype(numpy.int64) if a.dtype.kind == "f" else a), dims
+    if kind == "list-dims":
+        return f_arg, w_arg, [d.tolist() for d in dims]
+    if kind == "int32-dims":
+        return f_arg, w_arg, [d.astype(numpy.int32) for d in dims]
+    raise KeyError(kind)
+
+
+def repr_calls(N):
+    """A short menu (every aggregate, both policies, scalar / array / missing weights, 1- and 2-column facts in three forms)."""
+    out = [("count", False, ("none",), None), ("count", True, ("scalar", 2.0), None)]
+    if N:
+        out.append(("count", False, ("array", tuple("PM"[r % 2] for r in range(N)), "nan"), None))
+        out.append(("count", True, ("array", tuple("1" * N), "nan"), None))
+    pat1 = tuple(r == 0 for r in range(N))
+    pat2 = tuple((r + k) % 2 == 0 for r in range(N) for k in range(2))
+    for agg in ("valid_count", "sum", "mean"):
+        out.append((agg, False, ("none",), (0, "pow2", tuple([False] * N), "nan")))
+        out.append((agg, True, ("scalar", 2.0), (0, "pow2", pat1, "nan")))
+        out.append((agg, False, ("none",), (2, "pow2", tuple([False] * (2 * N)), "pair-huge")))
+        out.append((agg, True, ("none",), (0, "pow2", pat1, "int")))
+        if N:
+            out.append((agg, True, ("array", tuple("P" * N), "nan"), (2, "pow2", pat2, "nan")))
+            out.append((agg, False, ("array", tuple("1" * N), "nan"), (0, "pow2", tuple([False] * N), "nan")))
+    return out
+
+
+def check_repr(datas, E, N, acc, only_call=None, only_kind=None):
+    from catii.ccubes import ccube
+    from catii.xcubes import xcube
+
+    D = len(datas)
+    denses = [numpy.array(t, dtype=numpy.int64) for t in datas]
+    shape = (E + 1,) * D
+    cells = M.cell_rows(denses, shape, N)
+    idx = [M.build_index(d, 0) for d in denses]
+    for call in (repr_calls(N) if only_call is None else [only_call]):
+        agg, ignore, ws, fs = call
+        f0, x, valid, K, w0, w, wok = realise(N, ws, fs)
+        grand = Q.grand_total(x, w, N, K)
+        evals, emiss = Q.oracle(agg, cells, shape, N, K, x, valid, w, wok, ignore)
+        for kind in (REPR_KINDS if only_kind is None else [only_kind]):
+            f_arg, _, _, _, w_arg, _, _ = realise(N, ws, fs)
+            rep = represent(kind, f_arg, w_arg, denses, ws)
+            if rep is None:
+                continue
+            f2, w2, xdims = rep
+            case = {"repr": kind, "data": [list(t) for t in datas], "E": E, "agg": agg, "ignore": ignore, "weights": ws, "fact": fs}
+            for cube_kind, mk in (("xcube", lambda: xcube(xdims, interacting_shape=shape)), ("ccube", lambda: ccube(idx, interacting_shape=shape))):
+                if cube_kind == "ccube" and kind in ("list-dims", "int32-dims"):
+                    continue
+                try:
+                    v, m = Q.normalise(Q.call_cube(mk(), agg, f2, w2, ignore, Q.PAIR), Q.PAIR)
+                except Exception as e:  # noqa
+                    acc.violation("%s:%s:raised" % (cube_kind, agg), dict(case, cube=cube_kind), repr(e))
+                    continue
+                acc.count("repr_evals")
+                msg = Q.compare(v, m, evals, emiss, grand)
+                if msg:
+                    acc.violation("%s:%s:differs" % (cube_kind, agg), dict(case, cube=cube_kind), msg)
+            acc.case(("repr", kind, tuple(datas), agg, ignore, ws, fs), nontrivial=True, outcome=("repr", kind, agg), sample=lambda: case)
+
+
+# ----------------------------------------------------------------------------- scale: hundreds to tens of thousands of rows
+SCALE_NS = {"quick": [300, 1000, 4097, 20001], "thorough": [300, 1000, 4097, 20001, 70001, 150000]}
+
+
+def scale_data(N, design):
+    r = numpy.arange(N, dtype=numpy.int64)
+    if design == 0:
+        return [((r * 7 + r // 3) % 3), ((r * 5 + r // 7) % 3)]
+    if design == 1:   # one skewed dimension (a rare category every 97th row, another one never), one balanced
+        d0 = numpy.zeros(N, dtype=numpy.int64)
+        d0[::97] = 1
+        return [d0, (r // 11) % 3]
+    # one dimension with two columns
+    return [numpy.stack([(r * 3 + r // 5) % 3, (r // 2) % 3], axis=1), (r * 5 + r // 7) % 3]
+
+
+def scale_calls(N):
+    none = tuple([False] * N)
+    m31 = tuple(r % 31 == 5 for r in range(N))
+    m31x2 = tuple(((r % 31 == 5) and k == 0) or ((r % 17 == 3) and k == 1) for r in range(N) for k in range(2))
+    wP = ("array", tuple("P" * N), "nan")
+    wPM = ("array", tuple("M" if r % 50 == 7 else "P" for r in range(N)), "nan")
+    out = [("count", False, ("none",), None), ("count", True, wPM, None), ("count", False, wP, None)]
+    for agg in ("valid_count", "sum", "mean"):
+        out.append((agg, False, ("none",), (0, "mixed", none, "nan")))
+        out.append((agg, True, wP, (0, "mixed", m31, "nan")))
+        out.append((agg, True, wPM, (2, "mixed", m31x2, "pair-huge")))
+    return out
+
+
+def check_scale(N, design, acc, only_call=None, only_commons=None):
+    from catii.ccubes import ccube
+    from catii.iindexes import iindex
+    from catii.xcubes import xcube
+
+    denses = scale_data(N, design)
+    shape = (3,) * len(denses)
+    # cells of the brute-force group-by; a dimension with columns contributes its extra axis in front (C13's layout)
+    two_col = denses[0].ndim == 2
+    for call in (scale_calls(N) if only_call is None else [only_call]):
+        agg, ignore, ws, fs = call
+        f_arg, x, valid, K, w_arg, w, wok = realise(N, ws, fs)
+        grand = Q.grand_total(x, w, N, K)
+        blocks_ = []
+        for col in (range(denses[0].shape[1]) if two_col else [None]):
+            flat = [denses[0][:, col] if two_col else denses[0]] + denses[1:]
+            cells = M.cell_rows(flat, shape, N)
+            blocks_.append(Q.oracle(agg, cells, shape, N, K, x, valid, w, wok, ignore))
+        evals = numpy.stack([b[0] for b in blocks_]) if two_col else blocks_[0][0]
+        emiss = numpy.stack([b[1] for b in blocks_]) if two_col else blocks_[0][1]
+        case = {"scale": [N, design], "agg": agg, "ignore": ignore, "weights": "P/M pattern" if ws[0] == "array" else ws, "fact": None if fs is None else [fs[0], fs[1], "pattern", fs[3]],
+                "call_index": scale_calls(N).index(call)}
+        for commons in ([(0, 0), (1, 2)] if only_commons is None else [tuple(only_commons)]):
+            for kind in ("xcube", "ccube"):
+                if kind == "xcube" and commons != (0, 0) and only_commons is None:
+                    continue
+                try:
+                    f2, _, _, _, w2, _, _ = realise(N, ws, fs)
+                    if kind == "xcube":
+                        cube = xcube(denses, interacting_shape=shape)
+                    else:
+                        cube = ccube([iindex.from_array(d, common=c) for d, c in zip(denses, commons)], interacting_shape=shape)
+                    v, m = Q.normalise(Q.call_cube(cube, agg, f2, w2, ignore, Q.PAIR), Q.PAIR)
+                except Exception as e:  # noqa
+                    acc.violation("%s:%s:raised" % (kind, agg), dict(case, cube=kind, commons=list(commons)), repr(e))
+                    continue
+                acc.count("scale_evals")
+                msg = Q.compare(v, m, evals, emiss, grand)
+                if msg:
+                    acc.violation("%s:%s:differs" % (kind, agg), dict(case, cube=kind, commons=list(commons)), msg[:1500])
+        acc.case(("scale", N, design, agg, ignore, case["call_index"]), nontrivial=True, outcome=("scale", agg, N >= 4097), sample=lambda: case)
 
 
 def check_zero(N, cfg, acc, only_call=None):
@@ -283,6 +463,15 @@ def run_block(family, p, acc):
                     continue
                 check_wide(tuple(shape), vals, list(datas), acc)
         return
+    if family == "scale":
+        check_scale(p["N"], p["design"], acc)
+        return
+    if family == "repr":
+        D, N, E = p["D"], p["N"], 2
+        vecs = list(itertools.product(range(E), repeat=N))
+        for datas in itertools.islice(itertools.product(vecs, repeat=D), p["a"], p["a"] + 8):
+            check_repr(list(datas), E, N, acc)
+        return
     cfg = SETS[p["tier"]][p["si"]]
     N = p["N"]
     if family == "zero":
@@ -307,9 +496,18 @@ def replay(case, site=None):
     from ..core import Acc
 
     acc = Acc(ID, [], stop_at_first=False)
+    if case.get("scale"):
+        N, design = case["scale"]
+        check_scale(N, design, acc, only_call=scale_calls(N)[case["call_index"]], only_commons=case.get("commons"))
+        for v in acc.violations:
+            print("  %s :: %s" % (v["site"], v["detail"][:700]))
+        return bool(acc.violations)
     call = (case["agg"], case["ignore"], _tupleize(case["weights"]), _tupleize(case["fact"]) if case["fact"] is not None else None)
     cfg = dict(wl=0, Ks=[0], fl=1, forms=["nan"], vals=["pow2"], wforms=True)
-    if case.get("wide"):
+    if case.get("repr"):
+        datas = [tuple(t) for t in case["data"]]
+        check_repr(datas, case["E"], len(datas[0]), acc, only_call=call, only_kind=case["repr"])
+    elif case.get("wide"):
         check_wide(tuple(case["wide"]), None, [tuple(t) for t in case["data"]], acc)
     elif not case["data"]:
         check_zero(case["N"], cfg, acc, only_call=call)
